@@ -124,6 +124,13 @@ func WorkerMain(t *testing.T, raw string) {
 	}
 	out := &workerOut{Probes: map[string]int{}, Fired: make([]int, simdisk.NumFaultKinds)}
 	start := time.Now()
+	monitor.watch(&a, out, func() {
+		out.WallS = time.Since(start).Seconds()
+		b, _ := json.Marshal(out)
+		if a.Out != "" {
+			os.WriteFile(a.Out, b, 0o644)
+		}
+	})
 	switch a.Mode {
 	case "replay":
 		workerReplay(t, &a, out)
@@ -155,6 +162,50 @@ func WorkerMain(t *testing.T, raw string) {
 	}
 }
 
+// runMonitor converts a run that never returns (a loop inside the code under
+// test without any yield point) into a violation: the worker writes its result
+// including a seed-only replay case of class "hang" and exits.
+type runMonitor struct {
+	mu    sync.Mutex
+	cur   *Case
+	since time.Time
+}
+
+func (m *runMonitor) begin(c *Case) {
+	m.mu.Lock()
+	m.cur, m.since = c, time.Now()
+	m.mu.Unlock()
+}
+
+func (m *runMonitor) end() {
+	m.mu.Lock()
+	m.cur = nil
+	m.mu.Unlock()
+}
+
+func (m *runMonitor) watch(a *workerArgs, out *workerOut, finish func()) {
+	limit := time.Duration(envInt("VERIF_RUN_TIMEOUT", 300)) * time.Second
+	go func() {
+		for {
+			time.Sleep(time.Second)
+			m.mu.Lock()
+			c, since := m.cur, m.since
+			m.mu.Unlock()
+			if c == nil || time.Since(since) < limit {
+				continue
+			}
+			hc := &Case{Prop: c.Prop, Seed: c.Seed, Tier: c.Tier}
+			hc.Viol = &Violation{Prop: liveProp(c.Prop), Class: "hang", Msg: fmt.Sprintf("simulated run of seed %016x did not finish within %v: the code under test is looping or blocked without reaching any yield point", c.Seed, limit)}
+			out.Violations = append(out.Violations, hc)
+			out.Replays = append(out.Replays, writeReplay(hc))
+			finish()
+			os.Exit(3)
+		}
+	}()
+}
+
+var monitor runMonitor
+
 func workerBatch(t *testing.T, a *workerArgs, out *workerOut, start time.Time) {
 	known := loadKnown()
 	sigs := map[uint64]bool{}
@@ -169,7 +220,9 @@ func workerBatch(t *testing.T, a *workerArgs, out *workerOut, start time.Time) {
 			break
 		}
 		c := &Case{Prop: a.Prop, Seed: caseSeed(a.Seed, a.Index, i), Tier: a.Tier}
+		monitor.begin(c)
 		res := RunCase(t, c, false)
+		monitor.end()
 		out.Runs++
 		out.Evals += res.Evals
 		out.Steps += res.Steps
@@ -264,7 +317,9 @@ func workerReplay(t *testing.T, a *workerArgs, out *workerOut) {
 	want := c.Viol
 	c.Viol = nil
 	dump := os.Getenv("VERIF_DUMP_TRACE")
+	monitor.begin(&c)
 	res := RunCase(t, &c, dump != "")
+	monitor.end()
 	if dump != "" {
 		os.WriteFile(dump, []byte(res.Trace), 0o644)
 	}
